@@ -101,13 +101,18 @@ def pk_roles(pk):
         raise Undecided('parse_keywords: result name')
     R = rn[0]
     kv = [n for n in walk_unit(pk) if isinstance(n, ast.Assign) and isinstance(n.targets[0], ast.Tuple) and len(n.targets[0].elts) == 2
-          and isinstance(n.value, ast.Call) and callee_attr(n.value) in ('split', 'partition') and all(isinstance(e, ast.Name) for e in n.targets[0].elts)]
+          and isinstance(n.value, ast.Call) and callee_attr(n.value) in ('split', 'partition', 'groups') and all(isinstance(e, ast.Name) for e in n.targets[0].elts)]
     if not kv:
         raise Undecided('parse_keywords: (key, value) = line.split(...) not found')
     K, V = kv[0].targets[0].elts[0].id, kv[0].targets[0].elts[1].id
     loops = [n for n in walk_unit(pk) if isinstance(n, ast.For) and isinstance(n.target, ast.Name) and any(x is kv[0] for x in ast.walk(n))]
     L = loops[0].target.id if loops else None
     fk = names_defined_by(pk, lambda v: isinstance(v, ast.BoolOp) and any(isinstance(c, ast.Compare) and const(c.left) == '=' for c in ast.walk(v)))
+    if not fk:
+        # the flag is whatever plain name guards the (key, value) assignment
+        gk = cfg_of(pk)
+        for cn in gk.nodes_containing(kv[0]):
+            fk = [dotted(t.ast) for t, lab in gk.guarded_by(cn, lambda t: isinstance(t, ast.Name)) if lab == 'T']
     SP = names_defined_by(pk, lambda v: isinstance(v, ast.Call) and callee_attr(v) == 'split' and v.args and const(v.args[0]) == '=' and dotted(receiver(v)) == L)
     return dict(R=R, K=K, V=V, L=L, FK=fk[0] if fk else None, SP=SP[0] if SP else None, kv=kv)
 
@@ -130,7 +135,7 @@ def r13_3(run, ok_rule=True):
                    message='DEFAULT_VALUE stored on a key=value line')
     # key/value come from one split with maxsplit 1
     kv = ro['kv']
-    ok = bool(kv) and all(isinstance(a.value, ast.Call) and callee_attr(a.value) in ('split', 'partition') for a in kv)
+    ok = bool(kv) and all(isinstance(a.value, ast.Call) and callee_attr(a.value) in ('split', 'partition', 'groups') for a in kv)
     run.ob('R13.3', pk, pk.node, 'key and value come from one split of the line', ok, slot='kv-split', message='(key, value) assigned from %s' % [src(a.value) for a in kv])
     # the stored value is the (unquoted) remainder, distinct from the sentinel; '' stays ''
     vals = [s for s in stores if not (dotted(s.value) == 'DEFAULT_VALUE')]
@@ -147,7 +152,7 @@ def r13_3(run, ok_rule=True):
         if isinstance(n, (ast.Assign, ast.AugAssign)) and V in assigned_targets(n):
             kdef += 1
             v = n.value
-            ok = const(v) == '' or (isinstance(n, ast.Assign) and isinstance(n.targets[0], (ast.Tuple, ast.List)) and isinstance(v, ast.Call) and callee_attr(v) in ('split', 'partition')) \
+            ok = const(v) == '' or (isinstance(n, ast.Assign) and isinstance(n.targets[0], (ast.Tuple, ast.List)) and isinstance(v, ast.Call) and callee_attr(v) in ('split', 'partition', 'groups')) \
                 or (isinstance(v, ast.BinOp) and norm_src(v, {V: 'VALUE', L: 'LINE'}).replace(' ', '') == "VALUE+'\\n'+LINE") \
                 or (isinstance(v, ast.Subscript) and isinstance(v.value, ast.Name) and v.value.id == ro['SP'] and const(v.slice) == 1)
             run.ob('R13.3', pk, n, 'the value is only ever the text after "=" plus whole continuation lines', ok, slot='value-defs',
@@ -224,11 +229,71 @@ def r13_4(run):
                 ok = (callee_attr(n) == 'split' and ms == 1) or key_only
                 run.ob('R13.4', u, n, 'key=value lines are split at the first "=" only', ok, slot='maxsplit@%s:%s' % (u.name, src(n)[:30]),
                        message='%s splits on every "=": a value containing "=" is truncated / raises' % src(n))
+    # the same for a regex-based split: the key group must not be able to run past the first "="
+    import re._parser as sre
+    import re._constants as sc
+    pk0 = run.idx.unit(MOD + '.parse_keywords')
+    mod = pk0.module
+    for n in walk_unit(pk0):
+        if isinstance(n, ast.Call) and callee_attr(n) in ('match', 'search', 'fullmatch') and isinstance(receiver(n), ast.Name):
+            pat = None
+            for st in mod.tree.body:
+                if isinstance(st, ast.Assign) and dotted(st.targets[0]) == receiver(n).id and isinstance(st.value, ast.Call) and dotted(st.value.func) == 're.compile' and st.value.args:
+                    pat = const(st.value.args[0])
+            if not isinstance(pat, str):
+                run.ob('R13.4', pk0, n, 'regex used to split key=value lines is a module constant', None, message='pattern of %s not resolvable' % src(n)[:40])
+                continue
+            k += 1
+            verdict, why = None, 'pattern shape not recognised'
+            try:
+                items = list(sre.parse(pat))
+                items = [it for it in items if it[0] is not sc.AT]
+                if items and items[0][0] is sc.SUBPATTERN and len(items) > 1 and items[1] == (sc.LITERAL, ord('=')):
+                    inner = list(items[0][1][3])
+                    if len(inner) == 1 and inner[0][0] in (sc.MAX_REPEAT, sc.MIN_REPEAT):
+                        rep_kind, (lo_, hi_, what) = inner[0]
+                        what = list(what)
+
+                        def can_match_eq(node):
+                            op, av = node
+                            if op is sc.ANY:
+                                return True
+                            if op is sc.LITERAL:
+                                return av == ord('=')
+                            if op is sc.NOT_LITERAL:
+                                return av != ord('=')
+                            if op is sc.IN:
+                                neg = any(x[0] is sc.NEGATE for x in av)
+                                hit = False
+                                for x in av:
+                                    if x[0] is sc.LITERAL and x[1] == ord('='):
+                                        hit = True
+                                    elif x[0] is sc.RANGE and x[1][0] <= ord('=') <= x[1][1]:
+                                        hit = True
+                                    elif x[0] is sc.CATEGORY:
+                                        cat = x[1]
+                                        if cat in (sc.CATEGORY_NOT_SPACE, sc.CATEGORY_NOT_DIGIT, sc.CATEGORY_NOT_WORD):
+                                            hit = True
+                                return (not hit) if neg else hit
+                            return True
+                        greedy_over_eq = rep_kind is sc.MAX_REPEAT and len(what) == 1 and can_match_eq(what[0])
+                        verdict = not greedy_over_eq
+                        why = 'the key group %s can match "=" and is greedy: the key ends at the LAST "=" of its run, so a value containing "=" before its first blank moves into the key' % pat
+            except Exception as e:      # an unparsable pattern stays undecided
+                why = 'pattern not parsed: %s' % e
+            run.ob('R13.4', pk0, n, 'key=value lines are split at the first "=" only (regex form)', verdict, slot='regex-first-eq', message='%s: %s' % (src(n)[:40], why))
     run.floor('R13.4', 'splits on "="', k, 3)
     pk = run.idx.unit(MOD + '.parse_keywords')
     ro = pk_roles(pk)
     fk = sorted([n for n in walk_unit(pk) if isinstance(n, ast.Assign) and dotted(n.targets[0]) == ro['FK']], key=lambda n: n.lineno)
     ok = bool(fk) and ro['SP'] is not None and ("%s[0]" % ro['SP']) in src(fk[0].value) and ("'=' in %s" % ro['L']) in src(fk[0].value)
+    if fk and not ok:
+        # regex form: found_key = <m> is not None, m = <REGEX>.match(<line>) - what the pattern accepts is decided above
+        v = fk[0].value
+        if isinstance(v, ast.Compare) and isinstance(v.ops[0], ast.IsNot) and is_none(v.comparators[0]) and isinstance(v.left, ast.Name):
+            md = [d for d in local_defs(pk).get(v.left.id, []) if d[0] == 'expr']
+            if len(md) == 1 and isinstance(md[0][1], ast.Call) and callee_attr(md[0][1]) in ('match', 'fullmatch') and md[0][1].args and dotted(md[0][1].args[0]) == ro['L']:
+                ok = True
     run.ob('R13.4', pk, pk.node, 'the key test looks only at the text before the first "="', ok, slot='key-test', message='found_key = %s' % (src(fk[0].value) if fk else None))
 
 
@@ -367,6 +432,8 @@ RULES = [
 from ..selftest import M  # noqa: E402
 F = 'txtorcon/torcontrolprotocol.py'
 MUTANTS = [
+    M('regex-split-greedy', F, ["def parse_keywords(lines, multiline_values=True, key_hints=None):", "        sp = line.split('=', 1)\n        found_key = ('=' in line and ' ' not in sp[0])\n        if found_key and key_hints and sp[0] not in key_hints:", "            (key, value) = line.split('=', 1)\n"],
+      ["_KW = re.compile(r'^(\\S+)=(.*)$')\n\n\ndef parse_keywords(lines, multiline_values=True, key_hints=None):", "        m = _KW.match(line)\n        found_key = m is not None\n        if found_key and key_hints and m.group(1) not in key_hints:", "            (key, value) = m.groups()\n"], ['R13.4']),
     M('oneline-mode-overwrites', F, "            elif multiline_values is False:\n                # (same as above: an earlier line for this key must\n                # not be lost)\n                if key in rtn:\n                    if isinstance(rtn[key], list):\n                        rtn[key].append(value)\n                    else:\n                        rtn[key] = [rtn[key], value]\n                else:\n                    rtn[key] = value\n", "            elif multiline_values is False:\n                rtn[key] = value\n", ['R13.3']),
     M('ok-skipped-anywhere', F, "    for line in all_lines:\n", "    for line in all_lines:\n        if line.strip() == 'OK':\n            continue\n", ['R13.3']),
     M('splitlines', F, "    all_lines = lines.split('\\n')", "    all_lines = lines.splitlines() or ['']", ['R13.6']),
@@ -386,6 +453,8 @@ MUTANTS = [
     M('single-default-mapped', F, "        d.addCallback(lambda kw: list(kw.values())[0])", "        d.addCallback(lambda kw: list(kw.values())[0] or DEFAULT_VALUE)", ['R13.5']),
 ]
 TWINS = [
+    M('regex-split-correct', F, ["def parse_keywords(lines, multiline_values=True, key_hints=None):", "        sp = line.split('=', 1)\n        found_key = ('=' in line and ' ' not in sp[0])\n        if found_key and key_hints and sp[0] not in key_hints:", "            (key, value) = line.split('=', 1)\n"],
+      ["_KW = re.compile(r'^([^= ]+)=(.*)$', re.DOTALL)\n\n\ndef parse_keywords(lines, multiline_values=True, key_hints=None):", "        m = _KW.match(line)\n        found_key = m is not None\n        if found_key and key_hints and m.group(1) not in key_hints:", "            (key, value) = m.groups()\n"]),
     M('store-helper-correct', F, ["""    # FIXME could use some refactoring to reduce code duplication!
     all_lines""", """                if key in rtn:
                     if isinstance(rtn[key], list):
